@@ -82,7 +82,7 @@ class Mark(bytes):
 
 
 def alg_params(conn, is_client):
-    """(hdr_cs, bs_cs, hdr_sc, bs_sc, iv_cs, enc_cs, mac_cs, iv_sc, enc_sc, mac_sc) from the public
+    """(hdr_cs, bs_cs, hdr_sc, bs_sc, iv_cs, enc_cs, mac_cs, iv_sc, enc_sc, mac_sc, cmp_cs, cmp_sc) from the public
     get_extra_info names and the live registry."""
     from asyncssh.encryption import get_encryption_params
     out = {}
@@ -92,7 +92,11 @@ def alg_params(conn, is_client):
         keysize, ivsize, blocksize, mac_keysize, _mac_hashsize, etm = get_encryption_params(enc.encode(), mac.encode())
         out[d] = (1 if etm else 5, max(8, blocksize), ivsize, keysize, mac_keysize)
     cs, sc = (out['send'], out['recv']) if is_client else (out['recv'], out['send'])
-    return (cs[0], cs[1], sc[0], sc[1], cs[2], cs[3], cs[4], sc[2], sc[3], sc[4])
+    kinds = {'zlib': 1, 'zlib@openssh.com': 2}
+    cmp_send = kinds.get(conn.get_extra_info('send_compression'), 0)
+    cmp_recv = kinds.get(conn.get_extra_info('recv_compression'), 0)
+    cmp_cs, cmp_sc = (cmp_send, cmp_recv) if is_client else (cmp_recv, cmp_send)
+    return (cs[0], cs[1], sc[0], sc[1], cs[2], cs[3], cs[4], sc[2], sc[3], sc[4], cmp_cs, cmp_sc)
 
 
 class Tap:
@@ -331,9 +335,9 @@ def coq_act(a, with_keys):
     if k == 'RecvKexInit':
         return 'RecvKexInit %s %s' % (cbool(a[1]), cbool(a[2]))
     if k == 'KexDone':
-        algs = a[3] or (5, 8, 5, 8, 0, 0, 0, 0, 0, 0)
+        algs = a[3] or (5, 8, 5, 8, 0, 0, 0, 0, 0, 0, 0, 0)
         if not with_keys:
-            algs = tuple(algs[:4]) + (0,) * 6
+            algs = tuple(algs[:4]) + (0,) * 6 + tuple(algs[10:12])
         return 'KexDone %s %s (mkA %s)' % (hx(a[1]) if with_keys else '[]', hx(a[2]), ' '.join(str(x) for x in algs))
     return {'RecvNewKeys': 'RecvNewKeys', 'AuthBegin': 'AuthBegin', 'AuthDone': 'AuthDone'}[k]
 
